@@ -166,7 +166,9 @@ class ExceptionsEmitter:
                 "    Args:",
                 "        response: The httpx Response object that triggered this exception",
                 '    """',
-                "    super().__init__(status_code=response.status_code, message=response.text, response=response)",
+                "    super().__init__(",
+                "        status_code=response.status_code, message=response_text(response), response=response",
+                "    )",
             ]
 
             exception_code = renderer.render_class(
